@@ -14,22 +14,33 @@ static int extract(sqfs_data_reader_t *data, const sqfs_inode_generic_t *inode,
 	sqfs_istream_t *in;
 	int ret;
 
-	temp = alloca(strlen(prefix) + strlen(path) + 2);
+	/* the path comes from the image and can be of any length */
+	temp = malloc(strlen(prefix) + strlen(path) + 2);
+	if (temp == NULL) {
+		perror(path);
+		return -1;
+	}
+
 	sprintf(temp, "%s/%s", prefix, path);
 
 	ptr = strrchr(temp, '/');
 	if (ptr != NULL) {
 		*ptr = '\0';
-		if (mkdir_p(temp))
+		if (mkdir_p(temp)) {
+			free(temp);
 			return -1;
+		}
 		*ptr = '/';
 	}
 
 	ret = sqfs_ostream_open_file(&fp, temp, SQFS_FILE_OPEN_OVERWRITE);
 	if (ret) {
 		sqfs_perror(temp, NULL, ret);
+		free(temp);
 		return -1;
 	}
+
+	free(temp);
 
 	ret = sqfs_data_reader_create_stream(data, inode, path, &in);
 	if (ret) {
